@@ -11,6 +11,7 @@ mod parenthash;
 mod pathreq;
 mod privgen;
 mod ratchet;
+mod varint;
 mod reinitrule;
 mod resume;
 mod transcript;
@@ -32,6 +33,7 @@ fn main() {
         "kem" => kem::run(&a[2], &a[3]),
         "pathreq" => pathreq::run(&a[2], &a[3]),
         "ratchet" => ratchet::run(&a[2], &a[3]),
+        "varint" => varint::run(&a[2], &a[3]),
         "admission" => admission::run(&a[2], &a[3]),
         "resume" => resume::run(&a[2], &a[3]),
         "privgen" => privgen::run(&a[2], &a[3]),
